@@ -135,7 +135,7 @@ def work(item):
             if kind == 'abort' and not val.inconclusive:
                 continue
             res['obligations'] += 1
-            prob = float_replay(m, adv, item, rvals, twists, dz, qbreaks, T) if kind == 'exc' else None
+            prob = float_replay(m, adv, item, rvals, twists, dz, qbreaks, T)      # decided by the float run when the symbolic run cannot finish
             if prob:
                 res['violations'].append(('pargrad:exception', '%s: %s / %s' % (type(val).__name__, str(val)[:100], prob), dict(kind='pargrad', item=[str(x) for x in item[:9]], concrete=prob)))
             else:
